@@ -373,7 +373,12 @@ def _after_400(ctx, H):
                         escaped.append(exc_name(e.exc))
                         break            # an exception escaping dataReceived makes the transport drop the connection
                 return list(H.seen), H.wire(strict=False), H.transport.attrs["disconnecting"], escaped
-            for o in H.run(scen, single=False, max_paths=64):
+            outs = H.run(scen, single=False, max_paths=64)
+            for o in outs:
+                if len(outs) > 1 and (o.kind != "ok" or not (o.value[0] == [] and o.value[1].startswith(BAD_REQUEST) and o.value[2] and b"200" not in o.value[1])):
+                    # several paths = some branch depended on a value the interpreter does not know: a failing path among them is not a
+                    # positive finding about the code
+                    raise AnalysisError(f"after-400 scenario for {[bytes(x)[:30] for x in lines][:3]} depends on a value the interpreter does not know ({len(outs)} paths)")
                 if o.kind != "ok":
                     bad = (lines, f"{o.kind} {o.exc_name}")
                     break
@@ -443,6 +448,8 @@ def check(ctx):
 
 
 MUTANTS = [
+    Mutant("class-level-table-entry-accepts-instead-of-rejecting", HTTP, '    def _maybeChooseTransferDecoder(self, header, data):\n',
+           '    _onFramingError = {"reject": lambda self: True}\n\n    def _maybeChooseTransferDecoder(self, header, data):\n', more=[(HTTP, '            if not data.isdigit():\n                return self._failChooseTransferDecoder()\n', '            if not data.isdigit():\n                return self._onFramingError["reject"](self)\n')]),
     Mutant("F22t-revert-oversized-trailers-not-absorbing", HTTP, '            receivedSize = self._receivedTrailerHeadersSize + eolIndex + 2\n            if receivedSize > self._maxTrailerHeadersSize:\n                raise _MalformedChunkedDataError("Trailer headers data is too long.")\n            self._trailerHeaders.append(self._buffer[0:eolIndex])\n            del self._buffer[0 : eolIndex + 2]\n            self._start = 0\n            self._receivedTrailerHeadersSize = receivedSize\n',
            '            self._trailerHeaders.append(self._buffer[0:eolIndex])\n            del self._buffer[0 : eolIndex + 2]\n            self._start = 0\n            self._receivedTrailerHeadersSize += eolIndex + 2\n            if self._receivedTrailerHeadersSize > self._maxTrailerHeadersSize:\n                raise _MalformedChunkedDataError("Trailer headers data is too long.")\n', expect_rule="reject/nothing-processed-after-400"),
     Mutant("F19h-revert-huge-content-length-escapes", HTTP, "            try:\n                length = int(data)\n            except ValueError:\n                # More digits than Python is willing to convert: no request\n                # body can be that long.\n                return self._failChooseTransferDecoder()\n",
@@ -503,6 +510,8 @@ MUTANTS = [
            "        result ="),
 ]
 SILENT = [
+    Silent("reject-through-class-level-table-of-functions", HTTP, '    def _maybeChooseTransferDecoder(self, header, data):\n',
+           '    _onFramingError = {"reject": _failChooseTransferDecoder}\n\n    def _maybeChooseTransferDecoder(self, header, data):\n', more=[(HTTP, '            if not data.isdigit():\n                return self._failChooseTransferDecoder()\n', '            if not data.isdigit():\n                return self._onFramingError["reject"](self)\n')]),
     Silent("fold-separator-by-join", HTTP, "            self.__header += b\" \" + line.lstrip(b\" \\t\")", "            self.__header = b\" \".join((self.__header, line.lstrip(b\" \\t\")))"),
     Silent("header-prologue-in-helper", HTTP, "        try:\n            header, data = line.split(b\":\", 1)\n        except ValueError:\n            self._respondToBadRequestAndDisconnect()\n            return False\n",
            "        pair = self._nameAndValue(line)\n        if pair is None:\n            self._respondToBadRequestAndDisconnect()\n            return False\n        header, data = pair\n",
